@@ -151,13 +151,15 @@ def run_case(case):
         return r
 
     if kind == 'history':
+        # the history layer uses the 11-point grid in both tiers (the full theta alphabet is walked both ways)
+        g, y, v = _grid('quick')
         ths = sorted(A.THETAS[tier][fam])
         order = ths + ths[::-1][1:]
         fresh = {}
         for t in ths:
             try:
                 fresh[t] = np.asarray(make_biv(fam, t).percent_point(y.copy(), v.copy()), float)
-            except Exception:
+            except Exception:        # (the per-case timeout is a BaseException and is not caught here)
                 fresh[t] = None
         cop = make_biv(fam, order[0])
         for step, t in enumerate(order):
